@@ -666,6 +666,29 @@ func (in *Interp) intrinsic(fn *ssa.Function, args []Value) (Value, bool) {
 			rawStore(st, cbv(32, uint64(in.g.id+1)))
 			w.acquire(in.g, hbKey(st))
 			return cbool(true), true
+		case "(*sync.WaitGroup).Add", "(*sync.WaitGroup).Done":
+			p := args[0].(Ptr)
+			k := "wg:" + hbKey(p)
+			d := int64(-1)
+			if name == "(*sync.WaitGroup).Add" {
+				d = w.concretize(args[1].(BV), true, "WaitGroup.Add")
+			}
+			in.maybeYield("WaitGroup." + fn.Name())
+			w.ctrs[k] += d
+			if w.ctrs[k] < 0 {
+				panic(goPanic{"sync: negative WaitGroup counter"})
+			}
+			w.release(in.g, k)
+			return nil, true
+		case "(*sync.WaitGroup).Wait":
+			p := args[0].(Ptr)
+			k := "wg:" + hbKey(p)
+			in.maybeYield("WaitGroup.Wait")
+			for w.ctrs[k] != 0 {
+				w.block(in.g, "WaitGroup.Wait", func() bool { return w.ctrs[k] == 0 })
+			}
+			w.acquire(in.g, k)
+			return nil, true
 		case "(*sync.Mutex).Unlock":
 			p := args[0].(Ptr)
 			st := p.field(0)
@@ -1131,6 +1154,27 @@ func (in *Interp) zzvrt(fn *ssa.Function, args []Value) (Value, bool) {
 				n++
 			}
 		}
+		return cbv(64, uint64(n)), true
+	case "PendingCallbacks":
+		n := 0
+		var visit func(c *Ctx)
+		seen := map[*Ctx]bool{}
+		visit = func(c *Ctx) {
+			if c == nil || seen[c] {
+				return
+			}
+			seen[c] = true
+			for _, af := range c.afters {
+				if af.lib && !af.stopped && !af.started {
+					n++
+				}
+			}
+			for _, ch := range c.children {
+				visit(ch)
+			}
+		}
+		visit(w.bgCtx)
+		visit(w.todoCtx)
 		return cbv(64, uint64(n)), true
 	case "ArmedTimers":
 		n := 0
